@@ -142,6 +142,9 @@ func (n *Node) Rebuild() {
 			return custom.SignDeviceCertificate(n.DevCA.Key, n.DevCA.Chain)(info)
 		},
 		DeviceInfo: func(ctx context.Context, info *custom.DeviceMfgInfo, _ []*x509.Certificate) (string, protocol.PublicKey, error) {
+			if info == nil {
+				return "", protocol.PublicKey{}, fmt.Errorf("manufacturing info required")
+			}
 			bits := n.MfgBits
 			key, chain, err := st.ManufacturerKey(ctx, info.KeyType, bits)
 			if err != nil {
